@@ -60,9 +60,11 @@ type Contract struct {
 	Extern        bool
 	Lemma         bool
 	NoFrame       bool
-	Keep          map[string]bool // wiring units: safety obligation kinds that are nevertheless claimed
-	Wiring        bool            // abstract mode, no memory-safety obligations: only call-site/ensures/invariant obligations
+	Keep          map[string]bool            // wiring units: safety obligation kinds that are nevertheless claimed
+	KeepText      map[string]map[string]bool // ... or only the obligations of a kind with one of these texts
+	Wiring        bool                       // abstract mode, no memory-safety obligations: only call-site/ensures/invariant obligations
 	CallSites     []CallSiteSpec
+	Exits         []ExitSpec
 	NoWrap        bool
 	NoWrapAssumed bool
 	RealDiv       bool
@@ -101,6 +103,12 @@ func (c *Contract) resultNames(fn *ssa.Function) []string {
 
 // CallSiteSpec: an obligation on the arguments of every call of Callee inside the function under
 // contract (callee parameter names are bound to the arguments; caller variables by name).
+// ExitSpec: an assertion at the Ord-th return statement (0 = every return).
+type ExitSpec struct {
+	Ord    int
+	Clause Clause
+}
+
 type CallSiteSpec struct {
 	Callee string
 	Clause Clause
@@ -370,6 +378,23 @@ func (c *Ctx) parseContracts(p *packages.Package) error {
 						}
 						cur.CallSites = append(cur.CallSites, CallSiteSpec{Callee: fields[1], Clause: cl})
 						lastClause = &cur.CallSites[len(cur.CallSites)-1].Clause
+					case "exit":
+						// exit <k> requires [label:] expr : holds at the k-th return statement (source
+						// order), with the function's local variables in scope
+						if len(fields) < 4 || fields[2] != "requires" {
+							return fmt.Errorf("%s: bad exit clause", where)
+						}
+						k, err := strconv.Atoi(fields[1])
+						if err != nil && fields[1] != "*" {
+							return fmt.Errorf("%s: bad exit ordinal", where)
+						}
+						body := strings.TrimSpace(rest[strings.Index(rest, "requires")+len("requires"):])
+						cl, err := parseClause(body)
+						if err != nil {
+							return fmt.Errorf("%s: %v", where, err)
+						}
+						cur.Exits = append(cur.Exits, ExitSpec{Ord: k, Clause: cl})
+						lastClause = &cur.Exits[len(cur.Exits)-1].Clause
 					case "trusted":
 						cur.Trusted = true
 					case "inline":
@@ -381,6 +406,20 @@ func (c *Ctx) parseContracts(p *packages.Package) error {
 					case "keep":
 						if cur.Keep == nil {
 							cur.Keep = map[string]bool{}
+						}
+						// `keep kind, kind` or `keep kind: text | text` (only obligations with that text)
+						if i := strings.Index(rest, ":"); i > 0 {
+							kind := strings.TrimSpace(rest[:i])
+							if cur.KeepText == nil {
+								cur.KeepText = map[string]map[string]bool{}
+							}
+							if cur.KeepText[kind] == nil {
+								cur.KeepText[kind] = map[string]bool{}
+							}
+							for _, t := range strings.Split(rest[i+1:], ";") {
+								cur.KeepText[kind][strings.TrimSpace(t)] = true
+							}
+							break
 						}
 						for _, k := range strings.Split(rest, ",") {
 							cur.Keep[strings.TrimSpace(k)] = true
